@@ -643,10 +643,14 @@ def encapsulated(ctx, report, rule, facts, config, prop):
     type that is, through whatever re-export - can be assigned, moved out, reordered or rebuilt with a struct literal in safe code)."""
     n = 0
     parallel = ctx.parallel(config)
+    par_only = (A.AD, A.AD_DATA, A.AD_INNER, A.PAR, A.SEQ, A.PARSEQ)
+    if not parallel and all(p_ in par_only for p_ in STATE_OF[prop]):
+        report.note("config %s: the types this property's state lives in exist only with the `parallel` feature" % config)
+        return
     for path in STATE_OF[prop]:
         adt = facts.adts.get(path)
         if adt is None:
-            if not parallel and path in (A.AD, A.AD_DATA, A.AD_INNER, A.PAR, A.SEQ, A.PARSEQ):
+            if not parallel and path in par_only:
                 continue
             report.ob(rule, "ANCHOR/%s" % path, False, "type %s not found" % path, config=config)
             continue
